@@ -1,5 +1,323 @@
-(* C01 - loop liveness.  Statements only. *)
-From UV Require Import Lib.Base Model.Heap Model.Timer Model.LoopCore.
-Example C01_placeholder_model_runs :
-  snd (lrun (linit 0 false) [LInit KIdle true; LStart 0 true; LAlive] (fun _ => [])) = [VRet 0; VAlive true].
-Proof. vm_compute. reflexivity. Qed.
+(* C01 - loop liveness.  Statements only, each closed by [exact] of a lemma
+   proved in Proofs/LoopCoreInv.v or Proofs/C01Proofs.v, with
+   Print Assumptions beneath.
+
+   Model: Model/LoopCore.v.  A script [os : list lop] is a sequence of
+   top-level API calls ([LRun m] is uv_run in mode m); [beh k] is the list
+   of API calls made by the k-th user callback.  [lrun (linit t0 m) os beh]
+   is (final state, trace).  All theorems are for every script, every
+   callback behaviour, both settings [m] of UV_METRICS_IDLE_TIME, all three
+   run modes and every fuel. *)
+From UV Require Import Lib.Base Model.Heap Model.Timer Model.LoopCore
+  Proofs.LoopCoreInv Proofs.C01Proofs.
+Local Open Scope Z_scope.
+
+(* ---- 1. the counters are exact ---------------------------------------- *)
+
+(* In the final state of every script:
+   - loop->active_handles is the number of handles that are active and
+     referenced; every closing handle is inactive, so this is also the number
+     of handles that are active, referenced and not closing;
+   - loop->active_reqs.count is the number of work requests whose completion
+     has not been delivered;
+   - loop->closing_handles holds exactly the handles that are closing and
+     not yet closed, each once. *)
+Theorem C01_counter_exact :
+  forall (t0 : Z) (m : bool) (os : list lop) (beh : nat -> list lop),
+  let s := fst (lrun (linit t0 m) os beh) in
+  nact s = Z.of_nat (length (filter (fun h => h_active h && h_ref h) (hs s))) /\
+  (forall h, In h (hs s) -> h_closing h = true -> h_active h = false) /\
+  nact s = Z.of_nat (length (filter (fun h => h_active h && h_ref h && negb (h_closing h)) (hs s))) /\
+  nreq s = Z.of_nat (length (filter (fun w => negb (w_delivered w)) (works s))) /\
+  NoDup (closing s) /\
+  (forall i, In i (closing s) <->
+             exists h, nth_error (hs s) i = Some h /\ h_closing h = true /\ h_closed h = false).
+Proof.
+  intros t0 m os beh. pose proof (counter_exact t0 m os beh) as H.
+  unfold counters_exact in H. rewrite app_nil_r in H. exact H.
+Qed.
+Print Assumptions C01_counter_exact.
+
+(* The same facts hold after every step in between.  [LInv s pend] is the
+   invariant; [pend] is the part of a close batch that
+   uv__run_closing_handles has detached and whose close callbacks have not
+   run yet ([] everywhere else).  It holds initially and is kept by every
+   API call, every list of API calls, every user callback (whatever it
+   does), every phase of an iteration, uv_run and whole scripts. *)
+Theorem C01_counter_exact_invariant_meaning :
+  forall s pend, LInv s pend ->
+  nact s = Z.of_nat (length (filter (fun h => h_active h && h_ref h) (hs s))) /\
+  (forall h, In h (hs s) -> h_closing h = true -> h_active h = false) /\
+  nact s = Z.of_nat (length (filter (fun h => h_active h && h_ref h && negb (h_closing h)) (hs s))) /\
+  nreq s = Z.of_nat (length (filter (fun w => negb (w_delivered w)) (works s))) /\
+  NoDup (closing s ++ pend) /\
+  (forall i, In i (closing s ++ pend) <->
+             exists h, nth_error (hs s) i = Some h /\ h_closing h = true /\ h_closed h = false).
+Proof. exact LInv_counters_exact. Qed.
+Print Assumptions C01_counter_exact_invariant_meaning.
+
+Theorem C01_counter_exact_every_step :
+  (forall t0 m, LInv (linit t0 m) []) /\
+  (forall s pend o, LInv s pend -> LInv (fst (lapi s o)) pend) /\
+  (forall s pend os, LInv s pend -> LInv (fst (lapis s os)) pend) /\
+  (forall s pend beh tag i, LInv s pend -> LInv (fst (callback s beh tag i)) pend) /\
+  (forall s pend beh k tag, LInv s pend -> LInv (fst (run_watchers s beh k tag)) pend) /\
+  (forall s pend beh t, LInv s pend -> LInv (fst (io_poll s beh t)) pend) /\
+  (forall l s pend beh, LInv s (l ++ pend) -> LInv (fst (run_closing l s beh)) pend) /\
+  (forall s pend beh, LInv s pend -> LInv (fst (l_run_timers s beh)) pend) /\
+  (forall s beh mode, LInv s [] -> LInv (fst (iteration s beh mode)) []) /\
+  (forall fuel s beh mode, LInv s [] -> LInv (fst (uv_run fuel s beh mode)) []) /\
+  (forall s os beh, LInv s [] -> LInv (fst (lrun s os beh)) []).
+Proof. split; [exact LInv_init|exact counter_exact_steps]. Qed.
+Print Assumptions C01_counter_exact_every_step.
+
+(* At the level of traces, including every observation made from inside a
+   callback in any phase (also inside a close batch): every snapshot event
+   [VObs n r fl] - active_handles, request counter, and the (active, ref,
+   closing, closed) flags of every handle - in the trace of every script has
+   n = number of handles that are active, referenced and not closing; no
+   handle in it is closing and active, or closed and not closing; r >= 0. *)
+Theorem C01_obs_counter_exact :
+  forall (t0 : Z) (m : bool) (os : list lop) (beh : nat -> list lop),
+  Forall (fun e => match e with
+                   | VObs n r fl =>
+                       n = Z.of_nat (length (filter (fun x : bool * bool * bool * bool =>
+                                                       let '(a, r, c, d) := x in a && r && negb c) fl)) /\
+                       Forall (fun x : bool * bool * bool * bool =>
+                                 let '(a, r, c, d) := x in
+                                 (c = true -> a = false) /\ (d = true -> c = true)) fl /\
+                       0 <= r
+                   | _ => True
+                   end)
+         (snd (lrun (linit t0 m) os beh)).
+Proof. exact obs_counter_exact. Qed.
+Print Assumptions C01_obs_counter_exact.
+
+(* ---- 2. uv_loop_alive -------------------------------------------------- *)
+
+(* Under the invariant, outside a close batch: uv__loop_alive is true exactly
+   when a handle is active, referenced and not closing, or a request is
+   outstanding, or a handle is closing and its close callback has not run. *)
+Theorem C01_alive_iff :
+  forall s, LInv s [] ->
+  (loop_alive s = true <->
+   (exists i h, nth_error (hs s) i = Some h /\
+                h_active h = true /\ h_ref h = true /\ h_closing h = false) \/
+   0 < nreq s \/
+   (exists i h, nth_error (hs s) i = Some h /\ h_closing h = true /\ h_closed h = false)).
+Proof. exact alive_iff. Qed.
+Print Assumptions C01_alive_iff.
+
+(* Every uv_loop_alive() made at top level anywhere in any script: the
+   event it adds to the trace is [VAlive b] with [b] exactly that predicate
+   of the state [s] the call is made in. *)
+Theorem C01_alive_toplevel :
+  forall (t0 : Z) (m : bool) (pre post : list lop) (beh : nat -> list lop),
+  let s := fst (lrun (linit t0 m) pre beh) in
+  snd (lrun (linit t0 m) (pre ++ LAlive :: post) beh) =
+    snd (lrun (linit t0 m) pre beh) ++ VAlive (loop_alive s) :: snd (lrun s post beh) /\
+  (loop_alive s = true <->
+   (exists i h, nth_error (hs s) i = Some h /\
+                h_active h = true /\ h_ref h = true /\ h_closing h = false) \/
+   0 < nreq s \/
+   (exists i h, nth_error (hs s) i = Some h /\ h_closing h = true /\ h_closed h = false)).
+Proof. exact alive_toplevel. Qed.
+Print Assumptions C01_alive_toplevel.
+
+(* Known finding 1 (loop_alive_false_inside_close_cb_batch): the statement
+   does not extend to calls made inside a close callback.  Two prepare
+   handles closed together, NOWAIT run; the first close callback calls
+   uv_loop_alive() and takes a snapshot: the trace has [VAlive false]
+   followed by a snapshot in which a handle is closing and not closed
+   (flags are active, ref, closing, closed). *)
+Theorem C01_alive_inside_close_batch_refuted :
+  exists tr1 tr2 n r fl,
+    snd (lrun (linit 0 false)
+              [LInit KPrepare false; LInit KPrepare false; LClose 0; LClose 1; LRun 2]
+              (fun k => match k with O => [LAlive; LObs] | _ => [] end))
+      = tr1 ++ VAlive false :: VObs n r fl :: tr2 /\
+    exists x, In x fl /\ snd (fst x) = true /\ snd x = false.
+Proof. exact alive_inside_close_batch_refuted. Qed.
+Print Assumptions C01_alive_inside_close_batch_refuted.
+
+(* What does hold inside a close batch (and everywhere else, with pend = []):
+   uv__loop_alive does not see the handles of the detached batch [pend]
+   whose close callbacks have not run yet. *)
+Theorem C01_alive_inside_close_batch_partial :
+  forall s pend, LInv s pend ->
+  (loop_alive s = true <->
+   (exists i h, nth_error (hs s) i = Some h /\
+                h_active h = true /\ h_ref h = true /\ h_closing h = false) \/
+   0 < nreq s \/
+   (exists i h, nth_error (hs s) i = Some h /\ h_closing h = true /\ h_closed h = false /\
+                ~ In i pend)).
+Proof. exact alive_iff_in_batch. Qed.
+Print Assumptions C01_alive_inside_close_batch_partial.
+
+(* ---- 3. the value returned by uv_run ----------------------------------- *)
+
+(* The trace of uv_run ends with [VRun r].  [r] is uv__loop_alive of the
+   state uv_run returns in, for every fuel, mode and state, except in one
+   case ([stale_case]): UV_RUN_DEFAULT entered with work outstanding and the
+   stop flag clear, and the timer pass that precedes the first iteration
+   sets the stop flag - then no iteration runs and [r] is the liveness
+   sampled at entry, i.e. true. *)
+Theorem C01_run_result :
+  forall fuel s beh mode,
+  (Nat.eqb mode 0 && loop_alive s && negb (stop_flag s) &&
+   stop_flag (fst (l_run_timers (update_time s) beh))) = false ->
+  exists e, snd (uv_run fuel s beh mode) =
+            e ++ [VRun (loop_alive (fst (uv_run fuel s beh mode)))].
+Proof. exact run_result. Qed.
+Print Assumptions C01_run_result.
+
+Theorem C01_run_result_partial_stale_case :
+  forall fuel s beh mode,
+  (Nat.eqb mode 0 && loop_alive s && negb (stop_flag s) &&
+   stop_flag (fst (l_run_timers (update_time s) beh))) = true ->
+  mode = O /\ loop_alive s = true /\ stop_flag s = false /\
+  fst (uv_run fuel s beh mode) = set_stop (fst (l_run_timers (update_time s) beh)) false /\
+  exists e, snd (uv_run fuel s beh mode) = e ++ [VRun true].
+Proof. exact run_result_stale. Qed.
+Print Assumptions C01_run_result_partial_stale_case.
+
+(* For a uv_run made at top level after any script prefix, outside the stale
+   case: the result is true exactly when the state uv_run returns in has
+   outstanding work (the three-clause predicate). *)
+Theorem C01_run_result_outstanding :
+  forall (t0 : Z) (m : bool) (pre : list lop) (beh : nat -> list lop) (mode : nat),
+  let s := fst (lrun (linit t0 m) pre beh) in
+  stale_case s beh mode = false ->
+  exists e r, snd (uv_run run_fuel s beh mode) = e ++ [VRun r] /\
+    let s' := fst (uv_run run_fuel s beh mode) in
+    (r = true <->
+     (exists i h, nth_error (hs s') i = Some h /\
+                  h_active h = true /\ h_ref h = true /\ h_closing h = false) \/
+     0 < nreq s' \/
+     (exists i h, nth_error (hs s') i = Some h /\ h_closing h = true /\ h_closed h = false)).
+Proof. exact run_result_outstanding. Qed.
+Print Assumptions C01_run_result_outstanding.
+
+(* where that uv_run sits in the trace of the script *)
+Theorem C01_run_toplevel :
+  forall (t0 : Z) (m : bool) (pre post : list lop) (beh : nat -> list lop) (mode : nat),
+  let s := fst (lrun (linit t0 m) pre beh) in
+  snd (lrun (linit t0 m) (pre ++ LRun mode :: post) beh) =
+    snd (lrun (linit t0 m) pre beh) ++ VRunStart mode :: snd (uv_run run_fuel s beh mode) ++
+    snd (lrun (fst (uv_run run_fuel s beh mode)) post beh).
+Proof. exact run_toplevel. Qed.
+Print Assumptions C01_run_toplevel.
+
+(* Known finding 2 (uv_run_default_stale_result_after_stop_in_initial_timer_pass):
+   one due non-repeating timer whose callback calls uv_stop(); uv_run(DEFAULT)
+   returns true with nothing outstanding afterwards. *)
+Theorem C01_run_default_stale_result_refuted :
+  let os := [LInit KTimer true; LTStart 0 (Some 1%nat) 0 0; LRun 0] in
+  let beh := fun _ : nat => [LStopLoop] in
+  exists e, snd (lrun (linit 0 false) os beh) = e ++ [VRun true] /\
+            loop_alive (fst (lrun (linit 0 false) os beh)) = false /\
+            nact (fst (lrun (linit 0 false) os beh)) = 0 /\
+            nreq (fst (lrun (linit 0 false) os beh)) = 0 /\
+            closing (fst (lrun (linit 0 false) os beh)) = [].
+Proof. exact run_default_stale_result_refuted. Qed.
+Print Assumptions C01_run_default_stale_result_refuted.
+
+(* uv_run(UV_RUN_DEFAULT) returns only when nothing is outstanding or
+   uv_stop() was called.  [run_loopX] is [run_loop] with one more result,
+   telling whether the fuel ran out; [uv_runX] is [uv_run] returning in
+   addition (result, stop flag just before uv_run clears it, fuel ran out). *)
+Theorem C01_run_loopX_agrees :
+  forall fuel s beh mode, fst (run_loopX fuel s beh mode) = run_loop fuel s beh mode.
+Proof. exact run_loopX_agrees. Qed.
+Print Assumptions C01_run_loopX_agrees.
+
+Theorem C01_uv_runX_agrees :
+  forall fuel s beh mode, fst (uv_runX fuel s beh mode) = uv_run fuel s beh mode.
+Proof. exact uv_runX_agrees. Qed.
+Print Assumptions C01_uv_runX_agrees.
+
+Theorem C01_run_default_returns_only_when :
+  forall fuel s beh s' e r exhausted,
+  run_loopX fuel s beh 0 = (s', e, r, exhausted) ->
+  r = loop_alive s' /\ (exhausted = false -> r = false \/ stop_flag s' = true).
+Proof. exact run_default_returns_only_when. Qed.
+Print Assumptions C01_run_default_returns_only_when.
+
+Theorem C01_uv_run_default_returns_only_when :
+  forall fuel s beh,
+  let '(_, (r, stopped, exhausted)) := uv_runX fuel s beh 0 in
+  (exists e, snd (uv_run fuel s beh 0) = e ++ [VRun r]) /\
+  (r = true -> stopped = true \/ exhausted = true).
+Proof. exact uv_run_default_returns_only_when. Qed.
+Print Assumptions C01_uv_run_default_returns_only_when.
+
+(* ---- 4. uv_ref / uv_unref ---------------------------------------------- *)
+Theorem C01_ref_idempotent :
+  forall s i, handle_ref (handle_ref s i) i = handle_ref s i.
+Proof. exact ref_idempotent. Qed.
+Print Assumptions C01_ref_idempotent.
+
+Theorem C01_unref_idempotent :
+  forall s i, handle_unref (handle_unref s i) i = handle_unref s i.
+Proof. exact unref_idempotent. Qed.
+Print Assumptions C01_unref_idempotent.
+
+(* Neither changes whether any handle is active, nor anything else than REF
+   bits and the counter: putting the old handle table's REF-carrying records
+   and the old counter back gives the old state, the table keeps its length,
+   and every handle keeps kind, ACTIVE, CLOSING, CLOSED, callback and
+   pending. *)
+Theorem C01_ref_unref_keep_active :
+  forall s i,
+  let unchanged (s' : lstate) :=
+    set_nact (set_hs s' (hs s)) (nact s) = s /\
+    length (hs s') = length (hs s) /\
+    forall j, h_kind (hget s' j) = h_kind (hget s j) /\
+              h_active (hget s' j) = h_active (hget s j) /\
+              h_closing (hget s' j) = h_closing (hget s j) /\
+              h_closed (hget s' j) = h_closed (hget s j) /\
+              h_hascb (hget s' j) = h_hascb (hget s j) /\
+              h_pending (hget s' j) = h_pending (hget s j) in
+  unchanged (handle_ref s i) /\ unchanged (handle_unref s i).
+Proof. exact ref_unref_keep_active. Qed.
+Print Assumptions C01_ref_unref_keep_active.
+
+(* ---- 5. uv_loop_close -------------------------------------------------- *)
+Theorem C01_loop_close_ebusy_iff :
+  forall s, loop_close_code s = UV_EBUSY <->
+            0 < nreq s \/ exists h, In h (hs s) /\ h_closed h = false.
+Proof. exact loop_close_ebusy_iff. Qed.
+Print Assumptions C01_loop_close_ebusy_iff.
+
+(* every uv_loop_close() of any script reports exactly that, and 0 otherwise *)
+Theorem C01_loop_close_toplevel :
+  forall (t0 : Z) (m : bool) (pre post : list lop) (beh : nat -> list lop),
+  let s := fst (lrun (linit t0 m) pre beh) in
+  snd (lrun (linit t0 m) (pre ++ LLoopClose :: post) beh) =
+    snd (lrun (linit t0 m) pre beh) ++ VLoopClose (loop_close_code s) :: snd (lrun s post beh) /\
+  (loop_close_code s = UV_EBUSY <-> 0 < nreq s \/ exists h, In h (hs s) /\ h_closed h = false) /\
+  (loop_close_code s <> UV_EBUSY -> loop_close_code s = 0).
+Proof. exact loop_close_toplevel. Qed.
+Print Assumptions C01_loop_close_toplevel.
+
+(* ---- the hypotheses are satisfiable ------------------------------------ *)
+(* a reachable state with four handles (an armed timer, a closed idle
+   handle, an async handle, a prepare handle whose close is pending) and an
+   outstanding work request *)
+Example C01_invariant_example :
+  let s := fst (lrun (linit 5 true)
+                  [LInit KTimer false; LInit KIdle false; LInit KAsync true; LInit KPrepare false;
+                   LTStart 0 (Some 7%nat) 50 0; LStart 1 true; LStart 3 true; LUnref 3;
+                   LWork true; LClose 1; LRun 2; LWork false; LClose 3]
+                  (fun _ => [])) in
+  LInv s [] /\
+  length (hs s) = 4%nat /\ nact s = 2 /\ nreq s = 1 /\ closing s = [3%nat] /\
+  map (fun h => (h_active h, h_ref h, h_closing h, h_closed h)) (hs s) =
+    [(true, true, false, false); (false, false, true, true);
+     (true, true, false, false); (false, false, true, false)] /\
+  loop_alive s = true.
+Proof.
+  pose proof invariant_example as H. cbv zeta in *. unfold ex_script in H.
+  destruct H as (H1 & _ & H2). split; [exact H1|exact H2].
+Qed.
+Print Assumptions C01_invariant_example.
